@@ -68,6 +68,7 @@ type BatchLine struct {
 	Extra []string `json:"extra,omitempty"` // additional key=value arguments
 	Bad   string   `json:"bad,omitempty"`   // expected reported-error class ("" = valid line)
 	Ref   int      `json:"ref,omitempty"`   // C18: index of the line this one must equal (+1), 0 = none
+	Drop  []string `json:"drop,omitempty"`  // keys removed from the generated argument list (a line without project= or plotNr=)
 }
 
 type SchedSpec struct {
